@@ -95,6 +95,9 @@ def run_unit(unit, acc):
             if unit["nsamp"] >= 3:
                 for sc in ([0, 1, 0, 1], [0, 1, 1, 0], [1, 0, 1, 1]):
                     check_case(dict(nsamp=unit["nsamp"], pres=pat, cats=ci, style="t4", variant=ci % 2, seed=_SEED[0], scenes=sc[:unit["nsamp"]]), acc)
+            # the sensor files exist and are loaded too (load_raw_data=True); the camera key frame has its own ego pose
+            if unit["nsamp"] <= 2:
+                check_case(dict(nsamp=unit["nsamp"], pres=pat, cats=ci, style="t4", variant=1, seed=_SEED[0], raw=True), acc)
             # key frames one second apart (an instance missing from a sample is unannotated for two seconds)
             if unit["nsamp"] >= 3:
                 check_case(dict(nsamp=unit["nsamp"], pres=pat, cats=ci, style="t4", variant=0, seed=_SEED[0], slow=True), acc)
@@ -132,12 +135,14 @@ def check_case(case, acc):
         smp = dict(ts=tsk, ego=ego, anns=anns)
         if case["variant"]:   # the sensor data of a key frame is stamped a little before / after the sample itself
             smp.update(lidar_ts=tsk - 40000, cam_ts=tsk + 13000)
+        if case.get("raw") and len(ego) == 3:   # the camera frame of the key frame carries its own (slightly later) ego pose
+            smp["cam_ego"] = (ego[0] + 0.31, ego[1] + 0.07, ego[2] + 0.012)
         samples.append(smp)
     if _DIR[0] is None or not os.path.isdir(_DIR[0]):
         _DIR[0] = scratch.new_dir("c16")
     root = os.path.join(_DIR[0], "ds")
     shutil.rmtree(root, ignore_errors=True)
-    t4.write(root, samples, list(cats), vis_levels=levels, lidar_channel=channel, extra_camera=camera, scene_of=case.get("scenes"))
+    t4.write(root, samples, list(cats), vis_levels=levels, lidar_channel=channel, extra_camera=camera, scene_of=case.get("scenes"), raw=bool(case.get("raw")))
     if acc.cases % 211 == 1:
         acc.sample(case)
 
@@ -151,7 +156,8 @@ def check_case(case, acc):
         acc.exec()
         try:
             with contextlib.redirect_stderr(io.StringIO()), contextlib.redirect_stdout(io.StringIO()):
-                frames = load_all_datasets([root], EvaluationTask(task), LabelConverter(task, merge, "autoware"), FrameID.from_value(fid))
+                frames = load_all_datasets([root], EvaluationTask(task), LabelConverter(task, merge, "autoware"), FrameID.from_value(fid),
+                                           **({"load_raw_data": True} if case.get("raw") else {}))
         except Exception as ex:  # noqa
             bad("load-raises", "load_all_datasets raised %r" % (ex,))
             continue
